@@ -17,7 +17,8 @@ RULE = ("byte strings of every length 0..600 and sampled up to 70000 over byte c
         "repository's parse and with an independent parser.  parse() is also driven with independent renderings of both "
         "I/O-drawer formats (aligned and stripped short last lines of every length 1..15, lower case, comment/blank lines).  "
         "peltool -x output is parsed back to the files' bytes.  Non-trivial: len >= 1; distinct = (bytes, layout).")
-ASSUMPTIONS = ["comment lines are drawn from lines whose first character is not a hex digit (cannot be a dump-line prefix)",
+ASSUMPTIONS = ["comment lines never begin with a complete byte of a dump line (two hex digits at the first data position); a lone "
+               "hex digit next to a blank, sign or tab there is no byte and the line contributes nothing",
                "BMC-format dumps beyond 64 KiB are rendered with the 4-digit address wrapping around",
                "the text column's content is not constrained beyond being free of control characters"]
 
@@ -123,7 +124,7 @@ def plan(tier, seed):
 def minimums(tier):
     return {"hexdump.calls": 5000, "hexdump.default_layout_roundtrips": 2000, "parse.format_checks": 6000,
             "parse.short_last_line": 1500, "parse.with_comments": 800, "cli.hex_checked": 40, "layouts.checked": 400, "parse.beyond_64k": 20,
-            "parse.dump_file_checks": 500, "parse.lines_as_generator": 500, "parse.lines_as_file": 300, "parse.lines_as_tuple": 500, "parse.dump_file_hexlike_heading": 60, "parse.old_format_trimmed_lines": 300, "parse.near_miss_lines": 300, "parse.markup_like_text": 200}
+            "parse.dump_file_checks": 500, "parse.lines_as_generator": 500, "parse.lines_as_file": 300, "parse.lines_as_tuple": 500, "parse.dump_file_hexlike_heading": 60, "parse.old_format_trimmed_lines": 300, "parse.near_miss_lines": 300, "parse.near_miss_first_byte": 300, "parse.markup_like_text": 200}
 
 
 def finish(m, tier):
@@ -164,7 +165,10 @@ def run(spec, ctx):
         from io_drawer.dump import HEX_DUMP_LINE_FORMATS
         fm = {"bmc": (iomodels.render_bmc, HEX_DUMP_LINE_FORMATS[0]), "old": (iomodels.render_old, HEX_DUMP_LINE_FORMATS[1])}
         comments = ["", "   ", "# comment", "IO drawer dump", "----", "Z0 00", "<html>", "\t", "xx yy", "offset  data",
-                    "# a remark that is wider than any line of a dump: " + "-" * 40, "note " * 30, "=" * 75, "x" * 63, "y" * 64]
+                    "# a remark that is wider than any line of a dump: " + "-" * 40, "note " * 30, "=" * 75, "x" * 63, "y" * 64,
+                    # free text whose first characters are ONE hex digit next to a blank, sign, tab or bracket: not a byte
+                    " end of section", "A dump of drawer 1", "b) second part", "+5 V rail", " c", "d ", "e: x", "0 errors",
+                    "f", "\td0 stage", "-1", " collected through the web interface", "a", "F  ", "1) first", "+a"]
         for i in range(spec["n"]):
             name = rng.choice(["bmc", "old", "default"])
             n = rng.choice([0, 1, 15, 16, 17, 31, 32, 33]) if rng.random() < 0.3 else rng.randrange(0, 300)
@@ -226,6 +230,16 @@ def run(spec, ctx):
                         near = [src_line[:k] + rng.choice("GZ:x ") + src_line[k + 1:], src_line[:alen] + "#" + src_line[alen + 1:]]
                         mixed.insert(rng.randrange(len(mixed) + 1), rng.choice(near))
                         ctx.count("parse.near_miss_lines")
+                if lines and rng.random() < 0.5:
+                    # a data line whose FIRST byte is spelled with one digit and a blank / sign / tab: int(' c', 16) reads that,
+                    # the format does not - no byte there, so nothing of the line counts
+                    src_line = rng.choice(lines).rstrip("\n")
+                    first = fmt.index("D")
+                    if len(src_line) >= first + 2:
+                        x = rng.choice("0123456789abcdefABCDEF")
+                        pair = rng.choice([" " + x, x + " ", "+" + x, "-" + x, "\t" + x, x + "\t", "_" + x])
+                        mixed.insert(rng.randrange(len(mixed) + 1), src_line[:first] + pair + src_line[first + 2:])
+                        ctx.count("parse.near_miss_first_byte")
                 lines = mixed
                 ctx.count("parse.with_comments")
             if rng.random() < 0.5:
